@@ -403,7 +403,8 @@ def run(ck):
                 what = "touches private state of the radio object (%s)" % node_.attr
             if what:
                 nwho += 1
-                allowed = (f.name in ("_write_to_pipe", "_begin", "multicast_level") and "private" not in what and "closes" not in what and "reconfigures" not in what)
+                from .common import allowed_via_callers
+                allowed = (allowed_via_callers(P, f, ("_write_to_pipe", "_begin", "multicast_level"))[0] and "private" not in what and "closes" not in what and "reconfigures" not in what)
                 agg.add("R07.3", f, "only _write_to_pipe/_begin/multicast_level leave RX mode, and nobody closes pipes or touches the radio's private state", allowed,
                         "%s %s" % (f.qualname, what), node_)
     agg.flush()
